@@ -705,7 +705,8 @@ impl RadixDivisionParams {
                 for limb in limbs[..limb_count].iter_mut().rev() {
                     (limb.0, carry.0) = div2by1(carry.0, limb.0, &self.reciprocal);
                 }
-                if limbs[limb_count - 1] << lshift < div_limb {
+                // Equivalent to `limb << lshift < div_limb`, without the shift which can overflow
+                if limbs[limb_count - 1].0 <= (div_limb.0 - 1) >> lshift {
                     hi = limbs[limb_count - 1];
                     limb_count -= 1;
                 } else {
